@@ -50,6 +50,7 @@ RULE += ' Round 8: array files that are symbolic links into another folder (that
 RULE += ' Round 9: raw parts with equal base names (run<k>/continuous.dat); stored seconds with an inversion of a fifth of a sample; the caller writes to model.spike_clusters and spike_templates is compared again.'
 RULE += ' Round 10: regular (unjittered) geometries; the all-NaN template may be one without spikes, and templates are compared (all-NaN -> zeros) in that case too.'
 RULE += ' Round 11: params.py as a link into another folder given by a relative path; a raw file cut in the middle of a sample; an ALF samples file with an extra name part.'
+RULE += ' Round 12: a regularised single-precision whitening_mat_inv.npy dated older than every other file.'
 EXHAUSTIVE = {'quick': False, 'thorough': False}
 FLOORS = {'quick': {'evaluations': 1500, 'distinct_nontrivial': 800, 'monitors': {'M1.checked': 2000}},
           'thorough': {'evaluations': 20000, 'distinct_nontrivial': 5000, 'monitors': {'M1.checked': 5000}}}
